@@ -903,8 +903,13 @@ func (e *eng) Op(f []string, line string, out *hx.Out) {
 			held := mk()
 			e.interfere(tab)
 			res = seqS(held)
-			if again, fresh := seqS(held), seqS(mk()); res != fresh || again != fresh {
+			again, fresh := seqS(held), seqS(mk())
+			if res != fresh || again != fresh {
 				bad = " !BAD:C01:held-sequence-changed-by-other-reader-or-by-consuming-it"
+			}
+			if again != res {
+				// the answer of a query is a sequence: ranging over it a second time yields the same objects
+				bad += " !BAD:C04:result-sequence-not-repeatable"
 			}
 		case "num":
 			res = strconv.Itoa(t.NumObjects(txn))
